@@ -712,6 +712,8 @@ class HttpRequestParser(HttpParser[RawRequestMessage]):
             # https://datatracker.ietf.org/doc/html/rfc7230#section-5.3.3
             try:
                 url = URL.build(authority=path, encoded=True)
+                _ = url.port
+                _ = url.host
             except ValueError as exc:
                 raise InvalidURLError(
                     path.encode(errors="surrogateescape").decode("latin1")
@@ -740,9 +742,10 @@ class HttpRequestParser(HttpParser[RawRequestMessage]):
             # https://datatracker.ietf.org/doc/html/rfc7230#section-5.3.2
             try:
                 url = URL(path, encoded=True)
-                # yarl validates the port lazily, do it while the error can
-                # still be answered with a 400
+                # yarl validates the port and decodes the host (IDNA) lazily,
+                # do it while the error can still be answered with a 400
                 _ = url.port
+                _ = url.host
             except ValueError as exc:
                 raise InvalidURLError(
                     path.encode(errors="surrogateescape").decode("latin1")
